@@ -334,6 +334,12 @@ func (e *Engine) havocArgs(st *State, args []Val) {
 				name, sort := e.arrMapName(u.Elem())
 				h := e.heapGet(st, name, sort)
 				na := e.S.Fresh("hv_arr", fmt.Sprintf("(Array %s %s)", e.S.IntSort(), e.sortOf(u.Elem())))
+				if it := sexprItems(a.T); len(it) == 5 && it[0] == "mk_slice" && strings.HasPrefix(it[1], "ref_") && it[2] == "0" && it[3] == it[4] {
+					// the slice spans a whole array this function allocated (a variadic argument list):
+					// the array simply gets arbitrary contents, no quantified frame fact is needed
+					e.heapSet(st, name, sort, fmt.Sprintf("(store %s %s %s)", h, it[1], na))
+					continue
+				}
 				// only the elements inside the slice's window may change
 				lo := fmt.Sprintf("(sl_off %s)", a.T)
 				hi := e.arith("+", lo, fmt.Sprintf("(sl_len %s)", a.T), tInt)
